@@ -300,7 +300,7 @@ func RunConc(id int, o ConcOptions) (*ConcTrace, error) {
 		done   chan struct{}
 		endID  string
 	}
-	liveCfg := []FenceRec{{K: 1, Kinds: []int{4}}, {K: 2, Kinds: []int{3, 4}}}
+	liveCfg := []FenceRec{{K: 1, Kinds: []int{4}}, {K: 2, Kinds: []int{3, 4}}, {K: 1, Kinds: []int{3, 4}}}
 	lives := make([]*liveState, len(liveCfg))
 	var liveMu sync.Mutex
 	var endMu sync.Mutex
@@ -552,6 +552,7 @@ func RunConc(id int, o ConcOptions) (*ConcTrace, error) {
 
 	// ---- go
 	startLive(0)
+	startLive(2) // a second live fence on the same key: both evaluate every write of it
 	subPauses := make([][]time.Duration, o.Subs)
 	for s := 0; s < o.Subs; s++ {
 		for range subs[s].prog {
